@@ -1,6 +1,8 @@
 package main
 
 import (
+	"bytes"
+	"encoding/json"
 	"fmt"
 	"reflect"
 	"regexp"
@@ -10,6 +12,7 @@ import (
 
 	z "github.com/Oudwins/zog"
 	zi "github.com/Oudwins/zog/internals"
+	"github.com/Oudwins/zog/parsers/zjson"
 )
 
 // one observable event of an execution (ZogExec `ev`)
@@ -28,6 +31,19 @@ type IssueP struct {
 	Msg  string `json:"msg"`
 }
 
+// the data value handed to Parse for the case's front end
+func frontEndData(c *Case) any {
+	switch c.Fe {
+	case "json":
+		b, err := json.Marshal(concInput(c.Input, c.Schema, c.Fe))
+		if err != nil {
+			panic(err)
+		}
+		return zjson.Decode(bytes.NewReader(b))
+	}
+	return concInput(c.Input, c.Schema, c.Fe)
+}
+
 type Ret struct {
 	E      string      `json:"e"`
 	ID     string      `json:"id"`
@@ -39,6 +55,7 @@ type Ret struct {
 	Dest   []destEntry `json:"dest"`
 	Order  string      `json:"order"`
 	Panic  string      `json:"panic"`
+	SanOK  bool        `json:"sanok"` // SanitizeMap/SanitizeList: same keys, same order, messages only
 }
 
 type CallLine struct {
@@ -157,7 +174,7 @@ func runOnce(c *Case, order []int, opts ...z.ExecOption) (evs []Event, ret Ret) 
 	var data any
 	if c.Mode == "parse" {
 		initDest(destPtr.Elem(), c.Schema)
-		data = concInput(c.Input, c.Schema, c.Fe)
+		data = frontEndData(c)
 	} else {
 		setValue(destPtr.Elem(), c.Schema, c.Input)
 	}
@@ -240,6 +257,7 @@ func runOnce(c *Case, order []int, opts ...z.ExecOption) (evs []Event, ret Ret) 
 			panic(fmt.Sprintf("runOnce: root %T", sch))
 		}
 		ret.IsMap = isMap
+		ret.SanOK = sanitizeOK(isMap, m, l)
 		if isMap {
 			ret.Nil = m == nil
 			keys := []string{}
@@ -297,4 +315,33 @@ func rootOrder(evs []Event, root *Node) []string {
 		}
 	}
 	return out
+}
+
+// C10: the sanitizers return the same keys and order carrying only the messages
+func sanitizeOK(isMap bool, m z.ZogIssueMap, l z.ZogIssueList) bool {
+	eq := func(msgs []string, is z.ZogIssueList) bool {
+		if len(msgs) != len(is) {
+			return false
+		}
+		for i := range is {
+			if msgs[i] != is[i].Message {
+				return false
+			}
+		}
+		return true
+	}
+	if !isMap {
+		return eq(z.Issues.SanitizeList(l), l)
+	}
+	sm := z.Issues.SanitizeMap(m)
+	if len(sm) != len(m) {
+		return false
+	}
+	for k, is := range m {
+		msgs, ok := sm[k]
+		if !ok || !eq(msgs, is) {
+			return false
+		}
+	}
+	return true
 }
